@@ -46,8 +46,9 @@ pub fn judge_one(ctx: &mut Ctx, rd: &Rendered, sp: &Sp, cfg: &Cfg, step: u8, gen
         ctx.skip("tag recognition in dispute on this rendering (KF-C08)");
         return;
     }
-    if rd.text.contains('\r') {
-        ctx.skip("'\\r' in a listing document (property silent)");
+    let has_cr = rd.text.contains('\r');
+    if has_cr && ctx.prop == "C16" {
+        ctx.skip("'\\r' in a listing document (rendering of CR is not specified)");
         return;
     }
     let (wrappers_ok, starts_clean) = c15_space(rd, step);
@@ -63,7 +64,7 @@ pub fn judge_one(ctx: &mut Ctx, rd: &Rendered, sp: &Sp, cfg: &Cfg, step: u8, gen
     ctx.before_exec(|| doc_replay("list", rd, sp, cfg, step));
     ctx.eval();
     ctx.count(&format!("gen:{gen_name}"));
-    let rep = list_check(rd, sp, cfg, step, space);
+    let rep = list_check(rd, sp, cfg, step, space, has_cr);
     if let Some((_, p)) = &rep.panic {
         ctx.panic_site(p);
     }
@@ -176,13 +177,16 @@ pub fn run(ctx: &mut Ctx) {
         });
     }
     ctx.note("sibling_strings_max_len", json!(maxlen));
-    // ---- G-ast block documents of the C15 space
+    // ---- G-ast block documents of the C15 space (a third with inline elements, a tenth with
+    // CRLF line ends for C15 / C17), at configuration steps 0..4
     let total = 60_000 * scale;
     for i in (shard..total).step_by(n as usize) {
         if ctx.past(if is16 { 0.55 } else { 0.8 }) {
             break;
         }
         let mut r = Rng::for_case(seed, 81, i);
+        let step = [2u8, 2, 1, 3, 4, 0][(i / 4 % 6) as usize];
+        let cfg = step_cfg(step);
         let sp = match i % 4 {
             0 => default_sp(),
             1 => Sp::new("<!-- <", "> -->", "time-limited", "removal-marker"),
@@ -194,9 +198,23 @@ pub fn run(ctx: &mut Ctx) {
         gc.leading_lb = false;
         gc.holds_of_10 = if is17 { 4 } else { 6 };
         gc.max_depth = 4;
+        gc.allow_inline = i % 3 == 0;
         let d = gen_block_doc(&mut r, &gc);
-        let rd = render(&d, &sp);
-        judge_one(ctx, &rd, &sp, &cfg, STEP, "ast-block");
+        let mut rd = render(&d, &sp);
+        if !is16 && i % 10 == 7 {
+            // CRLF line ends: spans shift, so re-derive them through the admission gate
+            match admit(&rd.text.replace('\n', "\r\n"), &sp, &cfg) {
+                Ok(x) => {
+                    // `admit` marks satisfied conditions as level 1 and others as level 5; that
+                    // is relative to `cfg`, which is the configuration used below
+                    rd = x;
+                    judge_one(ctx, &rd, &sp, &cfg, if step == 0 { 0 } else { 1 }, "ast-crlf");
+                }
+                Err(why) => ctx.skip(why),
+            }
+            continue;
+        }
+        judge_one(ctx, &rd, &sp, &cfg, step, "ast-block");
     }
     // ---- G-unwrap layouts (C15 space when wrappers are code)
     let reps = if quick { 8 } else { 80 };
